@@ -12,12 +12,14 @@ VARIABLES tid, l
 T == All[tid]
 Chk(ok, name) == IF ok THEN {} ELSE {name}
 
-(* the state is the pair <<x, y>> of two attributes of one object; statement codes (harness/tsadrive.py C27_FORMS): *)
-(* 0 read x, 1 x = v, 2 x += v, 3 x -= v, 4 x *= v, 5 x += y, 6 y = v, 7 y += v, 8 x += v through a nested attribute  *)
-Apply(st, val) == CASE st[1] = 0 -> val [] st[1] = 1 -> <<st[2], val[2]>> [] st[1] = 2 -> <<val[1] + st[2], val[2]>>
-                    [] st[1] = 3 -> <<val[1] - st[2], val[2]>> [] st[1] = 4 -> <<val[1] * st[2], val[2]>>
-                    [] st[1] = 5 -> <<val[1] + val[2], val[2]>> [] st[1] = 6 -> <<val[1], st[2]>>
-                    [] st[1] = 7 -> <<val[1], val[2] + st[2]>> [] st[1] = 8 -> <<val[1] + st[2], val[2]>>
+(* the state is <<x, y, x2>>: two attributes of one object and the attribute x of a second object of the same class;          *)
+(* statement codes (harness/tsadrive.py C27_FORMS): 0 read x, 1 x = v, 2 x += v, 3 x -= v, 4 x *= v, 5 x += y, 6 y = v,         *)
+(* 7 y += v, 8 x += v through a nested attribute, 9 x2 += v, 10 x2 = v                                                         *)
+Apply(st, val) == CASE st[1] = 0 -> val [] st[1] = 1 -> <<st[2], val[2], val[3]>> [] st[1] = 2 -> <<val[1] + st[2], val[2], val[3]>>
+                    [] st[1] = 3 -> <<val[1] - st[2], val[2], val[3]>> [] st[1] = 4 -> <<val[1] * st[2], val[2], val[3]>>
+                    [] st[1] = 5 -> <<val[1] + val[2], val[2], val[3]>> [] st[1] = 6 -> <<val[1], st[2], val[3]>>
+                    [] st[1] = 7 -> <<val[1], val[2] + st[2], val[3]>> [] st[1] = 8 -> <<val[1] + st[2], val[2], val[3]>>
+                    [] st[1] = 9 -> <<val[1], val[2], val[3] + st[2]>> [] st[1] = 10 -> <<val[1], val[2], st[2]>>
 RECURSIVE Outs(_, _, _)
 Outs(P, idx, val) ==
   LET live == {t \in 1..Len(P) : idx[t] <= Len(P[t])}
